@@ -382,7 +382,7 @@ def _check_program(case, out):
         algo, src = dsl.compile_program(prog)
         with warnings.catch_warnings():
             warnings.simplefilter("ignore")
-            series, _ = series_computation({n: lib_input(tags[n]) for n in prog["inputs"]}, algo, scope)
+            series, lo_series = series_computation({n: lib_input(tags[n]) for n in prog["inputs"]}, algo, scope)
     except Exception as exc:  # noqa: BLE001
         out.fail("compile-exception", f"series_computation raised {type(exc).__name__}: {str(exc)[:200]}\n{dsl.render(prog)}")
         return out
@@ -412,6 +412,26 @@ def _check_program(case, out):
             asked_output = True
         elif asked_output and " @ " not in name:
             late_intermediate = True
+    # the second return value: "the same series as above, but wrapped into linear operators" - element by element
+    from scipy.sparse.linalg import LinearOperator
+
+    for name, i, j, *o in case["schedule"]:
+        idx = (i, j) + tuple(o)
+        expect = ref.get(name, idx)
+        try:
+            with warnings.catch_warnings():
+                warnings.simplefilter("ignore")
+                got = lo_series[name][idx]
+                if isinstance(got, LinearOperator):
+                    got = np.asarray(got @ np.eye(got.shape[1]))
+        except Exception as exc:  # noqa: BLE001
+            out.fail("exception", f'linear-operator twin of "{name}"{list(idx)} raised {type(exc).__name__}: {str(exc)[:200]}\n{dsl.render(prog)}')
+            return out
+        if not _same(got, expect, zero, one):
+            out.fail("linear-operator-twin", f'linear-operator twin of "{name}"{list(idx)} = {_show(got)}, direct interpretation gives {_show(expect)}\n{dsl.render(prog)}')
+            return out
+    if len(prog["inputs"]) >= 2:
+        out.labels.append("inputs>=2")
     # which terms does the compiler delete? those read exactly once by the program (reference use counts)
     deleted = any(v == 1 and k[0] not in prog["inputs"] and k[0] not in prog["outputs"] and " @ " not in k[0] for k, v in ref.uses.items())
     if deleted:
